@@ -8,6 +8,13 @@ From CK Require Import Hom.
 From CK Require Import Gen.
 From CK Require Import Fold.
 From CK Require Import FoldCheck.
+From CK Require Import Scalar.
+From CK Require Import Tensor.
+From CK Require Import Pexpr.
+From CK Require Import Exec.
+From CK Require Import Ops.
+From CK Require Import Struct.
+From CK Require Import Link.
 Close Scope Qc_scope. Close Scope Q_scope. Close Scope Z_scope. Open Scope nat_scope.
 
 (* evaluation commutes with every semiring homomorphism h: evaluating the h-image of a circuit gives the h-image of its values (h = exp from the log semiring, h = fst from dual numbers, h = conj); hence one denotation serves all semirings *)
@@ -17,7 +24,7 @@ Theorem C01_hom_eval :
          (forall a b : R1, h (a1 a b) = a2 (h a) (h b)) ->
          (forall a b : R1, h (m1 a b) = m2 (h a) (h b)) ->
          h o1 = o2 ->
-         forall (c : circuit R1 D) (y : asg D),
+         forall (c : Circ.circuit R1 D) (y : Base.asg D),
          eval R2 o2 a2 m2 D (map_circuit R1 R2 D h c) y = map (map h) (eval R1 o1 a1 m1 D c y).
 Proof. exact hom_eval. Qed.
 Print Assumptions C01_hom_eval.
@@ -35,3 +42,16 @@ Theorem C01_folded_evaluation :
          nth s (nth Mi (feval V dV g F) []) dV = nth (nth s (members (nth Mi F dfm)) 0) (ueval V dV g) dV.
 Proof. exact checked_fold_sound. Qed.
 Print Assumptions C01_folded_evaluation.
+
+(* the executable denotation den_all used as reference by the correspondence check is the semantic evaluation of the interpreted circuit (algebraic fragment) *)
+Theorem C01_denotation_is_semantic :
+  forall (c : circuit) (y : asg),
+         frag c = true -> den_all c y = (if inrange c y then Some (SEval (interp c) (afun y)) else None).
+Proof. exact den_all_spec. Qed.
+Print Assumptions C01_denotation_is_semantic.
+
+(* pre-evaluating parameter expressions does not change the denotation (any layer kind) *)
+Theorem C01_prep_invariant :
+  forall (c : circuit) (y : asg), den_all (prep c) y = den_all c y.
+Proof. exact den_prep. Qed.
+Print Assumptions C01_prep_invariant.
